@@ -398,7 +398,7 @@ func loopScenario(x *explore.X) {
 
 func TestC18(t *testing.T) {
 	s := explore.NewSuite(t, "C18", "exploration",
-		"Via chains of 0-3 elements drawn from 5 foreign elements (incl. same name with a different instance tag, the bare name, a comment) with this instance's own element (5 spellings: as emitted, with comment, other received-protocol) absent or at every position, in one line or split over two lines at every boundary, x request kind (absolute-form, origin-form, inside a MITM'd tunnel) x client version; deviation-bounded (D=5 quick, 7 thorough); the own element is learnt from a first forwarded request; plus real forwarding loops of one instance (upstream = itself) and two instances (A->B->A, same or different names) x version, full product; non-trivial = the chain was sent and the outcome compared; plus (concurrent-via, Engine T) ONE Via modifier used by two requests at once (5 chains x 5 chains x HTTP/1.0 or 1.1 each), via_modifier.go rebuilt with a scheduling point before every statement, every interleaving with at most 2 (quick) / 3 (thorough) preemptions: each request is refused iff its own chain contains this instance's element and otherwise leaves with its own chain plus one element; plus (connect-via-upstream) a CONNECT tunnelled through an upstream HTTP proxy: Via chain(none, foreign, own, foreign+own+later) x configured --connect-header rules x --header rules [full product]: the upstream proxy sees chain + own element, or is not contacted and the client gets 400")
+		"Via chains of 0-3 elements drawn from 5 foreign elements (incl. same name with a different instance tag, the bare name, a comment) with this instance's own element (5 spellings: as emitted, with comment, other received-protocol) absent or at every position, in one line or split over two lines at every boundary, x request kind (absolute-form, origin-form, inside a MITM'd tunnel) x client version; deviation-bounded (D=5 quick, 7 thorough); the own element is learnt from a first forwarded request; plus real forwarding loops of one instance (upstream = itself) and two instances (A->B->A, same or different names) x version, full product; non-trivial = the chain was sent and the outcome compared; plus (concurrent-via, Engine T) ONE Via modifier used by two requests at once (5 chains x 5 chains x HTTP/1.0 or 1.1 each), via_modifier.go rebuilt with a scheduling point before every statement, every interleaving with at most 2 (quick) / 3 (thorough) preemptions: each request is refused iff its own chain contains this instance's element and otherwise leaves with its own chain plus one element; plus (connect-via-upstream) a CONNECT tunnelled through an upstream HTTP proxy: Via chain(none, foreign, own, foreign+own+later) x configured --connect-header rules x --header rules [full product]: the upstream proxy sees chain + own element, or is not contacted and the client gets 400; (round 9) the next hop takes a forwarded request and hangs up or resets without answering (every attempt): the client is not answered 400 and a further attempt carries the same Via chain")
 	s.Assume = []string{"simnet models TCP", "the instance tag is read from the first forwarded request, never predicted"}
 	s.Add(explore.Scenario{Name: "chains", Remote: true, MaxDev: map[string]int{"quick": 5, "thorough": 7},
 		Run: func(x *explore.X) { world.Run(t, x, func() { scenario(x) }) }})
